@@ -63,7 +63,7 @@ pub async fn end_of_workload(h: &mut Hyb) {
                 }
             }
         }
-        "C01" | "C17" | "C12" | "C15" | "C10" => {
+        "C01" | "C17" | "C12" | "C15" | "C10" | "C06" | "C11" | "C16" => {
             if h.cache.is_some() && !ST.with(|s| s.borrow().closed) {
                 let rs = sweep(h, "final-sweep").await;
                 if rs.iter().any(|r| r.tag == Res::HIT) {
@@ -83,8 +83,71 @@ pub async fn end_of_workload(h: &mut Hyb) {
     }
 }
 
+/// C06 / C11 on the hybrid cache: the memory-scenario oracles run on the hybrid round's operation log, plus the
+/// hybrid-only clause "a lookup-only caller that is joined by a fetching caller receives the fetched entry".
+fn c06_c11_hybrid(case: &Case) {
+    let evs = hist::events_clone();
+    let mut oplog = ST.with(|s| s.borrow().oplog.clone());
+    // versions are assigned at run time: the sequential prelude reports them in the result
+    for r in oplog.iter_mut().filter(|r| r.client == 0) {
+        if let Op::Insert { ver, .. } = &mut r.op {
+            *ver = r.res.ver;
+        }
+    }
+    let keys = case.get("keys").max(1) as usize;
+    let mut sweep: Vec<Option<(u32, usize)>> = vec![None; keys];
+    for e in evs.iter().filter(|e| e.kind == "sweep_get") {
+        if (e.a as usize) < keys && e.c == Res::HIT as u64 {
+            sweep[e.a as usize] = Some((e.b as u32, 1));
+        }
+    }
+    let log = crate::memscn::MemLog { oplog: oplog.clone(), sweep, ..Default::default() };
+    crate::memoracle::check(case, &log, &evs);
+    if case.property != "C06" {
+        return;
+    }
+    // lookup-only callers: when every caller of a key registered while the disk lookups were held, they all belong to
+    // one round; if a fetching caller's origin then succeeded (and nothing failed or was cancelled), the lookup-only
+    // callers must receive that entry
+    let Some(unhold) = evs.iter().find(|e| e.kind == "unhold").map(|e| e.seq) else { return };
+    if case.get("abort_fetch") != 0 {
+        return;
+    }
+    for k in 0..keys as u64 {
+        let regs: Vec<&hist::Ev> = evs.iter().filter(|e| e.kind == "registered" && e.b == k).collect();
+        if regs.is_empty() || regs.iter().any(|e| e.seq > unhold) {
+            continue;
+        }
+        let round_ops: Vec<&crate::types::OpRec> = oplog.iter().filter(|r| r.client > 0 && matches!(&r.op, Op::Fetch { k: kk, .. } | Op::Get { k: kk, .. } if *kk == k)).collect();
+        if oplog.iter().any(|r| r.client > 0 && matches!(&r.op, Op::Insert { k: kk, .. } | Op::Remove { k: kk } if *kk == k)) {
+            continue;
+        }
+        let origin_ok: Vec<u32> = evs.iter().filter(|e| e.kind == "origin_done" && e.a == k && e.c == 0).map(|e| e.b as u32).collect();
+        let origin_failed = evs.iter().any(|e| e.kind == "origin_done" && e.a == k && e.c != 0);
+        if origin_ok.len() != 1 || origin_failed {
+            continue;
+        }
+        for r in round_ops.iter().filter(|r| matches!(r.op, Op::Get { .. })) {
+            hist::probe("c06_lookup_only_caller_checked");
+            hist::set_nontrivial();
+            if r.res.tag != Res::HIT || r.res.ver != origin_ok[0] {
+                hist::violation(
+                    "C06",
+                    "lookup-only-caller-not-served",
+                    format!("caller {} looked key {k} up without a fetch closure, was joined by a fetching caller whose origin produced v{}, yet received {:?}", r.client, origin_ok[0], r.res),
+                    &[],
+                );
+            }
+        }
+    }
+}
+
 pub fn post(case: &Case) {
     let _ = Op::Clear;
+    if case.clients.len() > 1 && matches!(case.property.as_str(), "C06" | "C11") {
+        c06_c11_hybrid(case);
+        return;
+    }
     match case.property.as_str() {
         "C04" => c04_post(case),
         "C09" => c09_post(case),
